@@ -13,7 +13,7 @@ from common import Case, Failure, flist, parse_flist, clist, parse_clist, call, 
 
 PID = 'C12'
 LEAN_TARGETS = ['Nitime.Props.C12']
-RULE = ('every routine is also run in call sequences on the same argument objects (>=3 evaluations in mixed order, results scribbled over, arrays refilled in place; C12: several live analyzers read in interleaved order); cases from one PRNG state: stable bivariate VAR models of order 1..6 (companion spectral radius 0.3..0.92), '
+RULE = ('GrangerAnalyzer objects are re-targeted with set_input (same shape / other length / other rate / other channel count) after reading model-derived or causality attributes, and every array / axis read afterwards is judged against the NEW input (the model is fed fresh fit_model results of the input current at each step); every routine is also run in call sequences on the same argument objects (>=3 evaluations in mixed order, results scribbled over, arrays refilled in place; C12: several live analyzers read in interleaved order); cases from one PRNG state: stable bivariate VAR models of order 1..6 (companion spectral radius 0.3..0.92), '
         'with and without zeroed cross-couplings, diagonal and correlated positive-definite innovation covariances, '
         'n_freqs of both parities; covariance scales 1e-12..1e4; analyzer runs on simulated 3..4-channel data with explicit ij lists in random order, '
         'reversed pairs and the default list; distinct = distinct protocol line')
@@ -26,6 +26,7 @@ TRUSTED_EXTRA = [
     'scipy.signal.freqz(b, 1, worN=n, whole=False[, include_nyquist]) modelled as the polynomial in exp(-1j·w_k); grid options are GENERATED from freq_response by harness/translate_c10.py',
     'numpy element-wise arithmetic along the frequency axis modelled per bin; np.log by Float.log / Real.log of the same ratio',
     'GrangerAnalyzer model fitting (fit_model / lwr_recursion) is NOT part of C12: the analyzer correspondence takes the fitted (coef, ecov) per pair from the analyzer and checks the spectra and their placement (fitting is C11)',
+    'in the re-target sequences (op anaseq) the model of the analyzer object (`Model/GrangerObj.lean`) is fed FRESH fit_model results of the input current at each step, so an analyzer that keeps fits / spectra / axis of an earlier input disagrees with the model as well as with the oracle',
 ]
 
 
@@ -116,6 +117,8 @@ def run_impl(m):
             return 'ok %s %s %s' % (flist(G.causality_xy.reshape(-1)), flist(G.causality_yx.reshape(-1)),
                                     flist(G.simultaneous_causality.reshape(-1)))
         return call(f)
+    if op == 'anaseq':
+        return call(lambda: run_anaseq(m))
     if op == 'afreq':
         _, gr, ts = mods()
         G = gr.GrangerAnalyzer(ts.TimeSeries(np.zeros((2, 8)), sampling_rate=m['Fs']), order=1, n_freqs=m['nf'])
@@ -135,8 +138,57 @@ def analyzer(m):
     return gr.GrangerAnalyzer(ts.TimeSeries(data, sampling_rate=m['Fs']), ij=ij, order=m['order'], n_freqs=m['nf'])
 
 
+READ_TOK = {'causality_xy': 'Rxy', 'causality_yx': 'Ryx', 'simultaneous_causality': 'Rsim', 'frequencies': 'Rf',
+            'model_coef': 'Rm', 'error_cov': 'Rm', 'order': 'Rm', 'autocov': 'Rm'}
+
+
+def default_ij(n):
+    """the pairs an analyzer built without `ij` holds (clause analyzer/default-ij)"""
+    return [(i, j) for j in range(n) for i in range(j)]
+
+
+def step_ij(m, st):
+    return [tuple(q) for q in m['ij']] if m['ij'] is not None else default_ij(st['nproc'])
+
+
+def step_data(st):
+    return np.array(parse_flist(st['data'])).reshape(st['nproc'], -1)
+
+
+def run_anaseq(m):
+    """GrangerAnalyzer(A); reads; set_input(B); reads; ... on ONE analyzer object"""
+    import warnings
+    warnings.simplefilter('ignore')
+    _, gr, ts = mods()
+    inputs = [ts.TimeSeries(step_data(st), sampling_rate=st['Fs']) for st in m['steps']]
+    G = gr.GrangerAnalyzer(inputs[0], ij=None if m['ij'] is None else [tuple(q) for q in m['ij']], order=m['order'], n_freqs=m['nf'])
+    toks = []
+    for k, st in enumerate(m['steps']):
+        if k:
+            G.set_input(inputs[k])
+        for attr in st['reads']:
+            v = getattr(G, attr)
+            if READ_TOK[attr] != 'Rm':
+                toks.append(flist(np.asarray(v).reshape(-1)))
+    return 'ok ' + ' '.join(toks)
+
+
 def line_of(m):
     op = m['op']
+    if op == 'anaseq':
+        _, gr, _ = mods()
+        toks = []
+        for st in m['steps']:
+            data = step_data(st)
+            prs = []
+            for (i, j) in step_ij(m, st):          # fitting is C11: fresh fit_model results of THIS input
+                o, Rxx, co, ec = gr.fit_model(data[i], data[j], order=m['order'])
+                co = np.asarray(co)
+                prs.append('%d:%d:%d:%s:%s' % (i, j, co.shape[0], aflat(co), aflat(ec)))
+            from common import f2x
+            toks.append('S|%d|%s|%s' % (st['nproc'], f2x(st['Fs']), ';'.join(prs) or '-'))
+            toks += [READ_TOK[a] for a in st['reads']]
+        return 'C12 anaseq %d %s' % (m['nf'], ' '.join(toks))
     if op == 'tf':
         return 'C12 tf %d %d %s' % (m['nf'], m['P'], m['a'])
     if op in ('sm', 'gc', 'gcs'):
@@ -292,6 +344,46 @@ def judge_value(m, impl, clause):
             f = fail('axis-not-the-spectral-grid', 'analyzer.frequencies is not Fs·w/2π for the grid w of granger_causality_xy')
             f.key = 'analyzer/frequencies/axis-not-the-spectral-grid'
             return f
+        return None
+    if op == 'anaseq':
+        n_out = 0
+        for k, st in enumerate(m['steps']):
+            tag = 'first-use/' if k == 0 else ''
+            data, n, nb = step_data(st), st['nproc'], m['nf'] // 2 + 1
+            where = 'after %s' % ('construction' if k == 0 else 'set_input #%d (%s)' % (k, st['kind']))
+            want = None
+            for attr in st['reads']:
+                if READ_TOK[attr] == 'Rm':
+                    continue
+                if n_out >= len(g):
+                    return fail(tag + 'shape', 'missing output for %s %s' % (attr, where))
+                got = np.array(parse_flist(g[n_out]))
+                n_out += 1
+                if attr == 'frequencies':
+                    wgrid = ar.granger_causality_xy(np.zeros((1, 2, 2)), np.eye(2), n_freqs=m['nf'])[0]
+                    if len(got) != nb or np.abs(got - wgrid * st['Fs'] / (2 * np.pi)).max() > 1e-9 * st['Fs']:
+                        return fail(tag + 'frequencies', 'frequencies %s is not Fs·w/2π for the sampling rate %g of the input the analyzer holds' % (where, st['Fs']))
+                    continue
+                if want is None:       # definitions, written directly, on fresh fits of the CURRENT data
+                    want = [np.full((n, n, nb), np.nan) for _ in range(3)]
+                    for (i, j) in step_ij(m, st):
+                        o, Rxx, coef, ecov = gr.fit_model(data[i], data[j], order=m['order'])
+                        w = ar.transfer_function_xy(coef, n_freqs=m['nf'])[0]
+                        A, H, Sd = dense(np.asarray(coef), np.asarray(ecov), w)
+                        ex2y, ey2x, exy, tot, _ = geweke(H, np.asarray(ecov))
+                        want[0][i, j], want[1][i, j], want[2][i, j] = ex2y, ey2x, exy
+                idx = {'causality_xy': 0, 'causality_yx': 1, 'simultaneous_causality': 2}[attr]
+                nm = ('xy', 'yx', 'sim')[idx]
+                if got.size != n * n * nb:
+                    return fail(tag + 'shape-' + nm, '%s %s has %d values, expected %d x %d x %d' % (attr, where, got.size, n, n, nb))
+                got = got.reshape(n, n, nb)
+                wt = want[idx]
+                if not np.array_equal(np.isnan(got), np.isnan(wt)):
+                    return fail(tag + 'placement-' + nm, '%s %s is filled at the wrong index pairs' % (attr, where))
+                ok = ~np.isnan(wt)
+                if ok.any() and np.abs(got[ok] - wt[ok]).max() > 1e-8 * max(1.0, np.abs(wt[ok]).max()):
+                    return fail(tag + 'values-' + nm, '%s %s differs from the Geweke measures of the models fitted to the data the analyzer holds (by %.3g)'
+                                % (attr, where, np.abs(got[ok] - wt[ok]).max()))
         return None
     if op == 'gcs':
         return None        # judged through its 'gc' partner (clause relabel); here only model-vs-implementation
@@ -475,6 +567,41 @@ def cases(rng, tier, seed):
         m = {'op': 'ana', 'nproc': nproc, 'nf': int(nrng.choice([16, 33])), 'order': int(nrng.randint(1, 4)),
              'Fs': float(nrng.choice([1.0, 2.0, 0.5, 1000.0])), 'ij': ij, 'data': aflat(data)}
         out.append(mk_case(m, 'analyzer/' + ('default' if ij is None else 'explicit'), cmp_groups('lll')))
+    # --- one analyzer re-targeted with set_input after it has been read
+    n_seq = 10 if not big else 60
+    kinds = ['same-shape', 'other-length', 'other-rate', 'other-channels']
+    cattrs = ['causality_xy', 'causality_yx', 'simultaneous_causality']
+    mattrs = ['model_coef', 'error_cov', 'order', 'autocov']
+    for t in range(n_seq):
+        nproc = int(nrng.choice([2, 3]))
+        explicit = t % 3 == 1
+        N = int(nrng.choice([128, 200]))
+        Fs = float(nrng.choice([1.0, 2.0, 0.5, 1000.0]))
+        first = [mattrs[t % 4]] if t % 2 else [cattrs[t % 3]]           # what is read before the re-targeting
+        steps = [{'nproc': nproc, 'Fs': Fs, 'kind': 'construct', 'reads': first + ['frequencies'],
+                  'data': aflat(sim_data(nrng, nproc, N) * float(nrng.choice([1.0, 1e-3, 50.0])))}]
+        for u in range(1 + (t % 2)):
+            kind = kinds[(t + u) % 4]
+            if kind == 'other-channels' and explicit:
+                kind = 'same-shape'
+            np2, N2, Fs2 = steps[-1]['nproc'], N, steps[-1]['Fs']
+            if kind == 'other-length':
+                N2 = int(nrng.choice([n for n in (96, 128, 200, 256) if n != N]))
+            elif kind == 'other-rate':
+                Fs2 = Fs2 * 4.0
+            elif kind == 'other-channels':
+                np2 = 5 - np2
+            d2 = sim_data(nrng, np2, N2) * float(nrng.choice([1.0, 3.0, 1e-2]))
+            reads = [cattrs[(t + u + q) % 3] for q in range(2)] + ['frequencies', cattrs[(t + u + 2) % 3]]
+            steps.append({'nproc': np2, 'Fs': Fs2, 'kind': kind, 'reads': reads, 'data': aflat(d2)})
+        if explicit:
+            allp = [(a, b) for a in range(nproc) for b in range(nproc) if a != b]
+            ij = [list(allp[q]) for q in nrng.permutation(len(allp))[:int(nrng.randint(1, 4))]]
+        else:
+            ij = None
+        m = {'op': 'anaseq', 'nf': int(nrng.choice([16, 33])), 'order': int(nrng.randint(1, 4)), 'ij': ij, 'steps': steps}
+        kinds_of_reads = ''.join('f' if a == 'frequencies' else 'l' for st in steps for a in st['reads'] if READ_TOK[a] != 'Rm')
+        out.append(mk_case(m, 'analyzer/retarget/' + '+'.join(st['kind'] for st in steps[1:]), cmp_groups(kinds_of_reads)))
     return out
 
 
